@@ -98,6 +98,14 @@ SCENARIOS = {
                                                         ('comm', 5), ('sleep', 5), ('comm', 6)],
                                                        [('sleep', 0.5), ('comm', 7), ('sleep', 2), ('comm', 8)]],
                                   behaviour={1: ('close',)}, refuse=2, callbacks=2, horizon=40),
+    # the device closes the connection while the communicator is idle (between two transactions): the next call fails,
+    # the loss becomes visible, the connection heals (by the callers themselves / by polling), callbacks run
+    'bytes_idle_drop': dict(bytes=True, callers=[[('comm', 1), ('sleep', 3), ('comm', 2), ('sleep', 4), ('comm', 3), ('sleep', 4),
+                                                  ('comm', 4)]], drop_at=1.5, callbacks=2, horizon=40),
+    'bytes_idle_drop_poller': dict(bytes=True, callers=[[('comm', 1), ('sleep', 3), ('comm', 2), ('sleep', 8), ('comm', 3)]],
+                                   drop_at=1.5, refuse=1, callbacks=1, poller=True, poll_until=14, horizon=40),
+    'idle_drop': dict(callers=[[('comm', 1), ('sleep', 3), ('comm', 2), ('sleep', 4), ('comm', 3), ('sleep', 4), ('comm', 4)]],
+                      drop_at=1.5, callbacks=2, horizon=40),
     'bytes_wait_before': dict(bytes=True, callers=[[('comm', 1), ('comm', 2)], [('comm', 3)]], wait_before=0.3,
                               behaviour={2: ('late', 2.2)}),
     # variable-length replies fetched in getFullReply (inside the transaction), arriving in pieces
@@ -132,6 +140,8 @@ IOSCEN = {
     # one call notices the loss, afterwards only the communicator's own poller can heal the connection
     'io_alone': dict(sensors=[], pollinterval=3, close_at=5.2, refuse=1, callbacks=1, horizon=24,
                      users=[[('sleep', 6), ('comm', 1)]]),
+    # two outages: healing and the immediate polls after the reconnect work every time, not only the first time
+    'io_heal_twice': dict(sensors=[8, 9], pollinterval=3, close_at=[5.3, 21.4], refuse=1, callbacks=1, horizon=44),
     'io_slow_sensor': dict(sensors=[8, 3], pollinterval=3, close_at=9.5, refuse=0, callbacks=1, horizon=36),
 }
 
@@ -188,7 +198,8 @@ def alpha(r, sc):
             # with its own poll thread the communicator has to be connected again when the device has been
             # accepting connections for two reconnect intervals (plus the refused attempts) before the end
             mustheal = bool('close_at' in sc and 'sensors' in sc and
-                            sc['horizon'] - sc['close_at'] >= (sc.get('refuse', 0) + 2) * sc.get('pollinterval', 3) + 1)
+                            sc['horizon'] - (sc['close_at'][-1] if isinstance(sc['close_at'], list) else sc['close_at'])
+                            >= (sc.get('refuse', 0) + 2) * sc.get('pollinterval', 3) + 1)
             tr.append({'ev': 'end', 'connected': e['connected'], 'unfinished': e['unfinished'], 'mustheal': mustheal,
                        'trickle': any(b[0] == 'trickle' for b in sc.get('behaviour', {}).values())})
     if r['deadlock'] or r['livelock'] or r['thread_exc']:
